@@ -837,6 +837,12 @@ func (pm *ProtocolManager) handleGetBlocksMsg(msg *p2p.Msg, p *peer) error {
 // respBlocks response blocks to remote peer
 func (pm *ProtocolManager) respBlocks(from, to uint32, p *peer, hasChangeLog bool) {
 	log.Info("response blocks", "peer", p.NodeID().String()[:16], "fromHeight", from, "toHeight", to)
+	if cur := pm.chain.CurrentBlock().Height(); to > cur {
+		to = cur
+	}
+	if from > to {
+		return
+	}
 	if from == to {
 		b := pm.chain.GetBlockByHeight(from)
 		if b == nil {
